@@ -1,8 +1,9 @@
 (* C08 — exported theorems only: each is closed by [exact] and followed by Print Assumptions. *)
 From Coq Require Import List ZArith Bool Permutation.
+From Verif Require Import Gen.Gen_scores Lib.Interleave.
 From Verif Require Import C08.Model C08.Spec C08.Proofs C08.Proofs_Drift C08.Proofs_Fresh
   C08.Proofs_Filter C08.Proofs_Main C08.Proofs_Table C08.Proofs_Float C08.Proofs_Bound
-  C08.Codec C08.Proofs_Codec C08.Proofs_Witness.
+  C08.Codec C08.Proofs_Codec C08.Proofs_Witness C08.Proofs_Pod C08.Proofs_Score C08.Sched C08.Proofs_Sched.
 Import ListNotations.
 Open Scope Z_scope.
 
@@ -54,7 +55,7 @@ Print Assumptions c08_fresh_sums_equal.
    + the incoming pod's estimate  is at or below the threshold *)
 Theorem c08_filter_sound : forall cfg ops nd p n m thr isAgg aggT aggD prodPod,
   alookup (nd_name nd) (run cfg ops) = Some n -> n_metric n = Some m ->
-  p_ds p = false ->
+  daemonset p = false ->
   select_thresholds (node_profile cfg nd) (is_prod p) = (thr, isAgg, aggT, aggD, prodPod) ->
   expiry_applies cfg m = false -> is_some (m_info m) = true ->
   (filter cfg (run cfg ops) nd p = 0 <->
@@ -90,7 +91,7 @@ Print Assumptions c08_fl53_error.
    float64 slack factor K^2 (K+1) / (K-1)^3 = 1 + 2^-51 *)
 Theorem c08_filter_pass_exact : forall cfg ops nd p n m thr isAgg aggT aggD prodPod,
   alookup (nd_name nd) (run cfg ops) = Some n -> n_metric n = Some m ->
-  p_ds p = false ->
+  daemonset p = false ->
   select_thresholds (node_profile cfg nd) (is_prod p) = (thr, isAgg, aggT, aggD, prodPod) ->
   expiry_applies cfg m = false -> is_some (m_info m) = true ->
   filter cfg (run cfg ops) nd p = 0 ->
@@ -139,7 +140,7 @@ Print Assumptions c08_no_usage_estimate.
 (* decision table: daemonset pods and nodes without a report are skipped; a node whose report
    is expired (or has no update time) while expiry filtering is configured is rejected exactly
    when EnableScheduleWhenNodeMetricsExpired = false, skipped otherwise *)
-Theorem c08_filter_daemonset : forall cfg nd p st, p_ds p = true -> filter_decide cfg nd p st = 0.
+Theorem c08_filter_daemonset : forall cfg nd p st, daemonset p = true -> filter_decide cfg nd p st = 0.
 Proof. exact filter_daemonset. Qed.
 Print Assumptions c08_filter_daemonset.
 
@@ -148,7 +149,7 @@ Proof. exact filter_no_metric. Qed.
 Print Assumptions c08_filter_no_metric.
 
 Theorem c08_expired_behaviour : forall cfg nd p m get thr isAgg aggT aggD prodPod est,
-  p_ds p = false ->
+  daemonset p = false ->
   select_thresholds (node_profile cfg nd) (is_prod p) = (thr, isAgg, aggT, aggD, prodPod) ->
   vempty thr = false ->
   get prodPod aggT aggD = Some est ->
@@ -166,7 +167,7 @@ Print Assumptions c08_metric_expired_spec.
 
 (* the complete decision of Filter as one table *)
 Theorem c08_filter_decision_table : forall cfg nd p m get thr isAgg aggT aggD prodPod est,
-  p_ds p = false ->
+  daemonset p = false ->
   select_thresholds (node_profile cfg nd) (is_prod p) = (thr, isAgg, aggT, aggD, prodPod) ->
   get prodPod aggT aggD = Some est ->
   filter_decide cfg nd p (Some (m, get)) =
@@ -229,7 +230,7 @@ Proof. exact on_update_stores. Qed.
 Print Assumptions c08_update_stores.
 
 Theorem c08_update_drops_terminated : forall cfg now old p c,
-  p_term p = true -> pod_info (on_update cfg now old p c) (p_node p) (p_uid p) = None.
+  terminated p = true -> pod_info (on_update cfg now old p c) (p_node p) (p_uid p) = None.
 Proof. exact on_update_drops_terminated. Qed.
 Print Assumptions c08_update_drops_terminated.
 
@@ -252,6 +253,202 @@ Theorem c08_table_frame : forall cfg ops c k u,
   pod_info (fold_left (step cfg) ops c) k u = pod_info c k u.
 Proof. exact run_table_frame. Qed.
 Print Assumptions c08_table_frame.
+
+(* ---- Score: the same estimates, ranked (over the REGENERATED leastUsedScore) ---- *)
+
+Theorem c08_scorer_range : forall dom ws used alloc,
+  0 <= dom -> Forall (fun w => 0 <= w) ws -> nnv used -> nnv alloc ->
+  0 <= scorer dom ws used alloc <= MaxNodeScore.
+Proof. exact scorer_range. Qed.
+Print Assumptions c08_scorer_range.
+
+(* more estimated usage (in every dimension) never ranks a node higher *)
+Theorem c08_scorer_antitone : forall dom ws used used' alloc,
+  0 <= dom -> Forall (fun w => 0 <= w) ws -> nnv used ->
+  (forall i, nth i used 0 <= nth i used' 0) -> nnv alloc ->
+  scorer dom ws used' alloc <= scorer dom ws used alloc.
+Proof. exact scorer_antitone. Qed.
+Print Assumptions c08_scorer_antitone.
+
+Theorem c08_score_decision_table : forall cfg nd p m get ws prodPod aggT aggD est,
+  score_weights cfg = Some ws ->
+  score_variant cfg p = (prodPod, aggT, aggD) ->
+  get prodPod aggT aggD = Some est ->
+  score_decide cfg nd p (Some (m, get)) =
+    if (match c_exp_seconds cfg with Some s => metric_expired m s | None => false end) then 0
+    else if negb (is_some (m_info m)) then 0
+    else scorer (sc_dom (c_score cfg)) ws (vadd est (est_vec cfg p)) (eff_alloc nd).
+Proof. exact score_decide_table. Qed.
+Print Assumptions c08_score_decision_table.
+
+Theorem c08_score_off : forall cfg nd p st, score_weights cfg = None -> score_decide cfg nd p st = 0.
+Proof. exact score_off. Qed.
+Print Assumptions c08_score_off.
+
+Theorem c08_score_no_metric : forall cfg nd p, score_decide cfg nd p None = 0.
+Proof. exact score_no_metric. Qed.
+Print Assumptions c08_score_no_metric.
+
+Theorem c08_score_range : forall cfg nd p st,
+  0 <= sc_dom (c_score cfg) ->
+  Forall (fun o => match o with Some k => 0 <= k | None => True end) (sc_weights (c_score cfg)) ->
+  (forall m get b t d est, st = Some (m, get) -> get b t d = Some est -> nnv (vadd est (est_vec cfg p))) ->
+  nnv (eff_alloc nd) ->
+  0 <= score_decide cfg nd p st <= MaxNodeScore.
+Proof. exact score_decide_range. Qed.
+Print Assumptions c08_score_range.
+
+(* on the cache reached by ANY history, Score ranks the node by the FROM-SCRATCH estimate of its
+   current report and pods plus the incoming pod's estimate (no drift reaches the ranking) *)
+Theorem c08_score_from_scratch : forall cfg ops nd p n m ws prodPod aggT aggD,
+  alookup (nd_name nd) (run cfg ops) = Some n -> n_metric n = Some m ->
+  score_weights cfg = Some ws ->
+  score_variant cfg p = (prodPod, aggT, aggD) ->
+  (match c_exp_seconds cfg with Some s => metric_expired m s | None => false end) = false ->
+  is_some (m_info m) = true ->
+  score cfg (run cfg ops) nd p =
+    scorer (sc_dom (c_score cfg)) ws
+      (vadd (est_of m (rebuild cfg m (n_ut n) (n_pods n)) prodPod aggT aggD) (est_vec cfg p))
+      (eff_alloc nd).
+Proof. exact score_from_scratch. Qed.
+Print Assumptions c08_score_from_scratch.
+
+(* ---- the pod as the estimator and the cache see it ---- *)
+
+(* priority class: a recognised koordinator.sh/priority-class label decides alone; without a
+   label a spec.priority inside a band decides; everything else is classed by QoS *)
+Theorem c08_class_label_wins : forall p,
+  (1 <=? p_label p) && (p_label p <=? 4) = true -> pod_cls p = cls_of_label (p_label p).
+Proof. exact cls_label_wins. Qed.
+Print Assumptions c08_class_label_wins.
+
+Theorem c08_class_band_next : forall p v,
+  p_label p = 0 -> p_prio p = Some v -> cls_of_prio v <> CNone -> pod_cls p = cls_of_prio v.
+Proof. exact cls_band_next. Qed.
+Print Assumptions c08_class_band_next.
+
+Theorem c08_class_qos_default : forall p, raw_cls p = CNone -> pod_cls p = qos_cls p.
+Proof. exact cls_qos_default. Qed.
+Print Assumptions c08_class_qos_default.
+
+(* an ordinary kubernetes pod (no koordinator label, priority outside the bands or absent)
+   that declares cpu or memory is accounted as a prod pod *)
+Theorem c08_plain_pod_is_prod : forall p c,
+  raw_cls p = CNone -> p_qos p = 0 -> p_kqos p = 0 -> p_fam p = 1 ->
+  In c (p_ctrs p) -> ctr_empty c = false -> is_prod p = true.
+Proof. exact plain_pod_is_prod. Qed.
+Print Assumptions c08_plain_pod_is_prod.
+
+(* pod requests / limits (before overhead) dominate the sum of the regular containers and every
+   single init container, for any number of containers and (restartable) init containers *)
+Theorem c08_aggregate_lower : forall sel p i,
+  pod_wf sel p ->
+  vnn (aggregate sel p)
+  /\ fold_right Z.add 0 (map (fun c => nth i (sel c) 0) (p_ctrs p)) <= nth i (aggregate sel p) 0
+  /\ (forall b c, In (b, c) (p_inits p) -> nth i (sel c) 0 <= nth i (aggregate sel p) 0).
+Proof. exact aggregate_lower. Qed.
+Print Assumptions c08_aggregate_lower.
+
+Theorem c08_pod_requests_lower : forall p i,
+  pod_wf ct_req p -> (i < dims)%nat ->
+  fold_right Z.add 0 (map (fun c => nth i (ct_req c) 0) (p_ctrs p))
+    + (if p_fam p =? 1 then nth i (ovec (p_overhead p)) 0 else 0)
+  <= nth i (pod_requests p (p_fam p)) 0.
+Proof. exact pod_requests_lower. Qed.
+Print Assumptions c08_pod_requests_lower.
+
+(* single-container pods: the aggregation is the container (conservative extension) *)
+Theorem c08_pod_requests_single : forall p c a b,
+  p_ctrs p = [c] -> p_inits p = [] -> p_overhead p = None -> ct_req c = [a; b] -> 0 <= a -> 0 <= b ->
+  pod_requests p (p_fam p) = [a; b].
+Proof. exact pod_requests_single. Qed.
+Print Assumptions c08_pod_requests_single.
+
+(* an estimate is never negative (so no pod can lower a node's estimated utilisation) *)
+Theorem c08_estimate_nonneg : forall c dflts reqs lims fs i,
+  (forall j, 0 <= nth j dflts 0) -> (forall j, 0 <= nth j reqs 0) -> (forall j, 0 <= nth j lims 0) ->
+  Forall (fun o => match o with Some k => 0 <= k | None => True end) fs ->
+  0 <= nth i (est_list c dflts reqs lims fs) 0.
+Proof. exact est_list_nonneg. Qed.
+Print Assumptions c08_estimate_nonneg.
+
+(* after ANY history the pods held for a node are live (never Succeeded / Failed) and never a
+   reservation's reserve pod *)
+Theorem c08_stored_pods_live : forall cfg ops node n uid pi,
+  alookup node (run cfg ops) = Some n -> alookup uid (n_pods n) = Some pi ->
+  terminated (pi_pod pi) = false /\ p_resv (pi_pod pi) = false /\ p_uid (pi_pod pi) = uid.
+Proof. exact stored_pods_live. Qed.
+Print Assumptions c08_stored_pods_live.
+
+(* ---- the cache under concurrency: lock sections as atomic actions (Sched.v) ---- *)
+
+(* whatever the threads' programs are and however their lock sections interleave, in EVERY
+   intermediate state: every nodeInfo is internally consistent (sums = from-scratch rebuild), the
+   map holds no deleted nodeInfo, a deleted one holds nothing, a released one is never empty *)
+Theorem c08_sched_invariant : forall cfg (ts : list (list act)) l pre post,
+  interleaving ts l -> l = pre ++ post -> sinv cfg (Interleave.exec (sstep cfg) cs_init pre).
+Proof. exact sinv_interleaved. Qed.
+Print Assumptions c08_sched_invariant.
+
+Theorem c08_sched_invariant_any : forall cfg l, sinv cfg (srun cfg l).
+Proof. exact sinv_run. Qed.
+Print Assumptions c08_sched_invariant_any.
+
+(* no schedule makes the estimates drift: what a reader gets for a name is never a deleted
+   nodeInfo, and its cached sums are the from-scratch computation on its report and pods *)
+Theorem c08_sched_no_drift : forall cfg l node o m,
+  visible (srun cfg l) node = Some o -> n_metric (o_n o) = Some m ->
+  n_sums (o_n o) = rebuild cfg m (n_ut (o_n o)) (n_pods (o_n o)).
+Proof. exact sched_no_drift. Qed.
+Print Assumptions c08_sched_no_drift.
+
+Theorem c08_sched_visible : forall cfg l node o,
+  visible (srun cfg l) node = Some o ->
+  o_del o = false /\ o_name o = node /\ ninfo_ok cfg (o_n o)
+  /\ (o_lock o = 0 -> ni_empty (o_n o) = false).
+Proof. exact visible_ok. Qed.
+Print Assumptions c08_sched_visible.
+
+Theorem c08_sched_deleted_holds_nothing : forall cfg l oid o,
+  alookup oid (cs_heap (srun cfg l)) = Some o -> o_del o = true -> ni_empty (o_n o) = true.
+Proof. exact deleted_holds_nothing. Qed.
+Print Assumptions c08_sched_deleted_holds_nothing.
+
+(* Filter, at any point of any schedule, decides on the from-scratch estimate of the nodeInfo it
+   can see *)
+Theorem c08_sched_filter_from_scratch : forall cfg l nd p o m,
+  visible (srun cfg l) (nd_name nd) = Some o -> n_metric (o_n o) = Some m ->
+  sfilter cfg (srun cfg l) nd p =
+    filter_decide cfg nd p
+      (Some (m, fun b t d => Some (est_of m (rebuild cfg m (n_ut (o_n o)) (n_pods (o_n o))) b t d))).
+Proof. exact sched_filter_from_scratch. Qed.
+Print Assumptions c08_sched_filter_from_scratch.
+
+(* serial schedules (each event's lock sections uninterrupted; any assignment of events to
+   threads) ARE the sequential model: Model.v is the concurrent model restricted to them *)
+Theorem c08_sched_serial_refines : forall cfg tops,
+  Forall (fun to => fst to <> 0 /\ supported (snd to) = true) tops ->
+  ceq (abs_cache (srun cfg (serial tops))) (run cfg (map snd tops)).
+Proof. exact serial_refines. Qed.
+Print Assumptions c08_sched_serial_refines.
+
+(* sequentially a delivered report is held until a NodeMetric delete for the node *)
+Theorem c08_report_is_kept : forall cfg pre now node m post,
+  (forall now', ~ In (OMetricDel now' node) post) ->
+  has_metric (run cfg (pre ++ OMetric now node m :: post)) node.
+Proof. exact report_is_kept. Qed.
+Print Assumptions c08_report_is_kept.
+
+(* REFUTED under concurrency: "no delivered event is lost".  The add-or-update retries once; a
+   schedule in which the loaded nodeInfo is emptied by another goroutine before BOTH tries drops
+   the event: here a metric report, which every sequential order of the same events keeps *)
+Theorem c08_sched_no_lost_event_refuted :
+  exists cfg ops1 ops2 l,
+    interleaving [serial (map (pair 1) ops1); serial (map (pair 2) ops2)] l
+    /\ (forall ops, interleaving [ops1; ops2] ops -> has_metric (run cfg ops) 1)
+    /\ abs_cache (srun cfg l) = [] /\ t_ok (reg_of (srun cfg l) 2) = false.
+Proof. exact no_lost_event_refuted. Qed.
+Print Assumptions c08_sched_no_lost_event_refuted.
 
 (* ---- the decision procedure run on implementation observables ---- *)
 
